@@ -36,6 +36,10 @@ partial def build (j : Json) : Option Obj :=
   | .arr #[.str "pat", .arr items] => do
       let vs ← items.toList.mapM scalarOf
       some (.strm true fun i => vs[i]?)
+  | .arr #[.str "fstrm", .str tag] =>
+      some (.strm false fun i => some (.app "at" [.atom ("s:" ++ tag), .atom s!"s:i{i}"]))
+  | .arr #[.str "fpat", .str tag] =>
+      some (.strm true fun i => some (.app "at" [.atom ("s:" ++ tag), .atom s!"s:i{i}"]))
   | .arr #[.str "list", .arr items] => do some (.seq .list (← items.toList.mapM build))
   | .arr #[.str "tuple", .arr items] => do some (.seq .tuple (← items.toList.mapM build))
   | .arr #[.str "chan", .arr items] => do some (.seq .chan (← items.toList.mapM build))
